@@ -119,11 +119,46 @@ def gen(rng, tier='quick', cones='LQX', ints=True, pinned=False, atom=None, fron
         t = _gen_cvx(rng, a, nx, xstar)
         obj['cvx'] = {k_: t[k_] for k_ in ('atom', 'params', 'M', 'v', 'mult')}
     elif r < 0.5:
-        npc = int(rng.integers(2, 4))
-        obj['pieces'] = [{'c': np.round(rng.uniform(-2, 2, nx), 2).tolist(),
-                          'k': float(np.round(rng.uniform(-1, 1), 2))} for _ in range(npc)]
+        obj['pieces'] = _gen_pieces(rng, nx)
     spec['obj'] = obj
+    # piecewise-linear constraints: mult*maxof(pieces) + g.x + k <= 0 / mult*minof(...) + ... >= 0
+    spec['pw'] = []
+    if not only_lin and rng.random() < 0.3:
+        for _ in range(int(rng.integers(1, 3))):
+            curv = 1 if rng.random() < 0.5 else -1
+            pcs = _gen_pieces(rng, nx)
+            mult = float(np.round(rng.uniform(0.3, 3.0), 2))
+            g = np.round(rng.uniform(-1.5, 1.5, nx), 2) * (rng.random(nx) < 0.6)
+            vals = [float(np.dot(p_['c'], xstar) + p_['k']) for p_ in pcs]
+            v0 = mult * (max(vals) if curv == 1 else min(vals)) + float(g @ xstar)
+            slack = float(np.round(rng.uniform(0.0, 1.0), 2)) * (rng.random() < 0.7)
+            k = -v0 - curv * slack
+            spec['pw'].append({'pieces': pcs, 'mult': mult, 'g': g.tolist(), 'k': float(k),
+                               'curv': curv, 'spell': int(rng.integers(4))})
     return spec
+
+
+def _gen_pieces(rng, nx):
+    """2-4 affine pieces; some of them plain numbers (passed to maxof/minof as floats), possibly
+    several of those."""
+    npc = int(rng.integers(2, 5))
+    pcs = []
+    for _ in range(npc):
+        if rng.random() < 0.3:
+            pcs.append({'c': [0.0] * nx, 'k': float(np.round(rng.uniform(-2, 2), 2)),
+                        'numeric': True})
+        else:
+            pcs.append({'c': np.round(rng.uniform(-2, 2, nx), 2).tolist(),
+                        'k': float(np.round(rng.uniform(-1, 1), 2))})
+    if all(p_.get('numeric') for p_ in pcs):
+        pcs[0] = {'c': np.round(rng.uniform(-2, 2, nx), 2).tolist(), 'k': 0.0}
+    return pcs
+
+
+def pw_lhs(c, x):
+    x = np.asarray(x, float)
+    vals = [float(np.dot(p_['c'], x) + p_['k']) for p_ in c['pieces']]
+    return c['mult'] * (max(vals) if c['curv'] == 1 else min(vals)) + float(np.dot(c['g'], x)) + c['k']
 
 
 def _gen_cvx(rng, a, nx, xstar):
@@ -323,6 +358,10 @@ def violations(spec, x, tol=1e-6):
         v = special_viol(s_, x)
         if v > 20 * tol * sc:
             out.append(('special%d:%s' % (k, s_['kind']), float(v)))
+    for k, c in enumerate(spec.get('pw', [])):
+        v = c['curv'] * pw_lhs(c, x)
+        if v > 10 * tol * (1 + c['mult']) * sc:
+            out.append(('pw%d:%s' % (k, 'maxof' if c['curv'] == 1 else 'minof'), float(v)))
     return out
 
 
@@ -516,6 +555,18 @@ def _build(spec, variant=None):
         else:
             c = rso.kldiv(mat(s['M'], s['v']), arr(s['q']), s['r'])
         B.constr.append(m.st(c))
+    for c in spec.get('pw', []):
+        pcs = [float(p_['k']) if p_.get('numeric') else lin(p_['c'], p_['k']) for p_ in c['pieces']]
+        pw = rso.maxof(*pcs) if c['curv'] == 1 else rso.minof(*pcs)
+        rest = lin(c['g'], c['k'])
+        sp_ = (c.get('spell', 0) + (variant or {}).get('respell', 0)) % 4
+        if c['curv'] == 1:
+            con = [c['mult'] * pw + rest <= 0, pw * c['mult'] <= -rest,
+                   -rest >= c['mult'] * pw, rest + c['mult'] * pw <= 0][sp_]
+        else:
+            con = [c['mult'] * pw + rest >= 0, pw * c['mult'] >= -rest,
+                   -rest <= c['mult'] * pw, rest + c['mult'] * pw >= 0][sp_]
+        B.constr.append(m.st(con))
     _hook(variant, 'objective', B)
     o = spec['obj']
     e = lin(o['c'], o['k'])
@@ -529,7 +580,7 @@ def _build(spec, variant=None):
         else:
             e = (c['mult'] * at + e) if rng.random() < 0.5 else (e + at * c['mult'])
     if o.get('pieces'):
-        pcs = [lin(p['c'], p['k']) for p in o['pieces']]
+        pcs = [float(p['k']) if p.get('numeric') else lin(p['c'], p['k']) for p in o['pieces']]
         pw = rso.maxof(*pcs) if o['sense'] == 'min' else rso.minof(*pcs)
         e = pw + e
     B.obj_expr = e
@@ -618,7 +669,7 @@ def brute_force(spec):
     if not ints:
         return None
     if conts and (spec['cvx'] or spec['special'] or spec['obj'].get('cvx')
-                  or spec['obj'].get('pieces')):
+                  or spec['obj'].get('pieces') or spec.get('pw')):
         return None
     ranges = []
     for i in ints:
@@ -710,6 +761,8 @@ def improve_search(spec, x, rng, tries=150):
                          -curv * np.atleast_1d(cvx_lhs(c, p)[0])})
         for s_ in spec['special']:
             cons.append({'type': 'ineq', 'fun': lambda p, s_=s_: -special_viol(s_, p)})
+        for c in spec.get('pw', []):
+            cons.append({'type': 'ineq', 'fun': lambda p, c=c: -c['curv'] * pw_lhs(c, p)})
         bnds = [(b['lo'], b['hi']) for b in spec['bounds']]
         res = minimize(lambda p: sgn * objective(spec, p), xs, method='SLSQP', bounds=bnds,
                        constraints=cons, options={'maxiter': 200, 'ftol': 1e-10})
